@@ -514,4 +514,158 @@ example : ¬ ValidTypes [⟨some "Y", 0, some 0, some 0, none, none⟩] ∧
     tableToSymbols codeDecoder (symbolsToTable installed [⟨some "Y", 0, some 0, some 0, none, none⟩]) = none := by
   refine ⟨by decide, by decide⟩
 
+/-! ### String identity: present str fields come back as they went in (no normalisation; `''` is not `None`) -/
+
+/-- `is_missing` never fires on a str: not on `''`, not on a whitespace-only string, not on `'nan'`. -/
+theorem isMissing_str (s : String) : isMissing (.str s) = false := rfl
+
+/-- **codeDecoder_preserves_strings.**  For EVERY string `s` (empty, whitespace-only, with leading / trailing blanks,
+    tabs, newlines: strings are opaque) the code's decoder hands a present str cell back unchanged in each of the
+    three str fields. -/
+theorem codeDecoder_preserves_strings (s : String) :
+    codeDecoder.name (.str s) = some (.str s) ∧ codeDecoder.equation (.str s) = some (.str s) ∧
+    codeDecoder.code (.str s) = some (.str s) := ⟨rfl, rfl, rfl⟩
+
+/-- A present str is written to the table as itself whatever else its column holds (under any coercion). -/
+theorem encodeStr_present (c : Coercion) (f : Bool) (s : String) : encodeStr c f (some s) = .str s := rfl
+
+/-- `''` (or any other str) and `None` are different Python values in the model: the comparison "returns the
+    original list" tells them apart. -/
+theorem ofStr_injective (a b : Option String) (h : ofStr a = ofStr b) : a = b := by
+  cases a <;> cases b <;> simp [ofStr] at h ⊢
+  exact h
+
+theorem ofInt_injective (a b : Option Int) (h : ofInt a = ofInt b) : a = b := by
+  cases a <;> cases b <;> simp [ofInt] at h ⊢
+  exact h
+
+/-- Two symbols with the same tuple of Python values are the same symbol (so `RoundTrips` is equality of the
+    symbol lists themselves, field by field, `Some ""` ≠ `None`, `"x "` ≠ `"x"`). -/
+theorem toPy_injective (s t : Symbol) (h : s.toPy = t.toPy) : s = t := by
+  obtain ⟨a1, a2, a3, a4, a5, a6⟩ := s
+  obtain ⟨b1, b2, b3, b4, b5, b6⟩ := t
+  simp only [Symbol.toPy, PySymbol.mk.injEq] at h
+  obtain ⟨h1, h2, h3, h4, h5, h6⟩ := h
+  rw [ofStr_injective _ _ h1, h2, ofInt_injective _ _ h3, ofInt_injective _ _ h4, ofStr_injective _ _ h5,
+    ofStr_injective _ _ h6]
+
+theorem tableToSymbols_rows (dec : Decoder) (rows : List PySymbol) :
+    ∀ out, tableToSymbols dec rows = some out →
+      out.length = rows.length ∧ ∀ p ∈ rows.zip out, decodeRow dec p.1 = some p.2 := by
+  induction rows with
+  | nil => intro out h; simp [tableToSymbols] at h; subst h; simp
+  | cons r rs ih =>
+    intro out h
+    simp only [tableToSymbols] at h
+    cases h1 : decodeRow dec r with
+    | none => simp [h1] at h
+    | some a =>
+      cases h2 : tableToSymbols dec rs with
+      | none => simp [h1, h2] at h
+      | some b =>
+        simp [h1, h2] at h
+        subst h
+        obtain ⟨l, hr⟩ := ih b h2
+        refine ⟨by simp [l], ?_⟩
+        intro p hp
+        simp only [List.zip_cons_cons, List.mem_cons] at hp
+        rcases hp with hp | hp
+        · subst hp; exact h1
+        · exact hr p hp
+
+/-- Row level: whatever the coercion does to missing entries, a row the code's decoder accepts carries every present
+    str field of the symbol unchanged. -/
+theorem decodeRow_present_strings (c : Coercion) (f : Flags) (s : Symbol) (r : PySymbol)
+    (h : decodeRow codeDecoder (encodeRow c f s) = some r) :
+    (∀ x, s.name = some x → r.name = .str x) ∧ (∀ x, s.equation = some x → r.equation = .str x) ∧
+    (∀ x, s.code = some x → r.code = .str x) := by
+  obtain ⟨_, _, hn, _, _, he, hc⟩ := (decodeRow_eq_iff _ _ _).mp h
+  refine ⟨?_, ?_, ?_⟩ <;> intro x hx
+  · simp only [encodeRow, hx, encodeStr_present] at hn
+    exact (Option.some.inj hn).symm
+  · simp only [encodeRow, hx, encodeStr_present] at he
+    exact (Option.some.inj he).symm
+  · simp only [encodeRow, hx, encodeStr_present] at hc
+    exact (Option.some.inj hc).symm
+
+/-- **present_strings_roundtrip.**  Under ANY coercion of missing entries (no assumption on pandas beyond string
+    identity of present cells, which the reflected probes re-check): if `dataframe_to_symbols(symbols_to_dataframe(ss))`
+    returns at all, it returns one symbol per input symbol, and every present `name` / `equation` / `code` is the very
+    string that went in — for every symbol list and every string (no stripping, no normalisation, `''` stays `''`). -/
+theorem present_strings_roundtrip (c : Coercion) (ss : List Symbol) (out : List PySymbol)
+    (h : tableToSymbols codeDecoder (symbolsToTable c ss) = some out) :
+    out.length = ss.length ∧ ∀ p ∈ ss.zip out,
+      (∀ x, p.1.name = some x → p.2.name = .str x) ∧ (∀ x, p.1.equation = some x → p.2.equation = .str x) ∧
+      (∀ x, p.1.code = some x → p.2.code = .str x) := by
+  obtain ⟨l, hr⟩ := tableToSymbols_rows _ _ out h
+  unfold symbolsToTable at l hr
+  refine ⟨by simpa using l, ?_⟩
+  intro p hp
+  apply decodeRow_present_strings c (flagsOf ss) p.1 p.2
+  apply hr (encodeRow c (flagsOf ss) p.1, p.2)
+  rw [List.zip_map_left]
+  exact List.mem_map.mpr ⟨p, hp, rfl⟩
+
+/-- With the installed pandas the round trip does return (`symbols_roundtrip`), so every present string of every
+    valid symbol list is restored exactly. -/
+theorem symbols_roundtrip_strings (ss : List Symbol) (hv : ValidTypes ss) :
+    ∃ out, tableToSymbols codeDecoder (symbolsToTable installed ss) = some out ∧ out.length = ss.length ∧
+      ∀ p ∈ ss.zip out,
+        (∀ x, p.1.name = some x → p.2.name = .str x) ∧ (∀ x, p.1.equation = some x → p.2.equation = .str x) ∧
+        (∀ x, p.1.code = some x → p.2.code = .str x) :=
+  ⟨_, symbols_roundtrip ss hv, present_strings_roundtrip installed ss _ (symbols_roundtrip ss hv)⟩
+
+/-- Conversely NO normalisation is compatible with the property: a decoder that changes (strips, drops, maps to
+    `None`) even one string in one str field fails the round trip on a one-symbol list, under any coercion. -/
+theorem normalising_decoder_breaks_roundtrip (dec : Decoder) (c : Coercion) (s : String)
+    (h : dec.name (.str s) ≠ some (.str s) ∨ dec.equation (.str s) ≠ some (.str s) ∨
+      dec.code (.str s) ≠ some (.str s)) :
+    ValidTypes [full s 0] ∧ ¬ RoundTrips dec c [full s 0] := by
+  refine ⟨by intro x hx; simp at hx; subst hx; exact typeOk_one, ?_⟩
+  intro hr
+  have p := (decodeRow_eq_iff _ _ _).mp ((roundTrips_iff_rows dec c _).mp hr (full s 0) (by simp))
+  simp only [encodeRow, full, encodeStr, Symbol.toPy, ofStr] at p
+  rcases h with h | h | h
+  · exact h p.2.2.1
+  · exact h p.2.2.2.2.2.1
+  · exact h p.2.2.2.2.2.2
+
+/-- Symbol lists with edge whitespace: a verbatim block whose code ends in blank + tab (`parse_model` keeps them), an
+    equation whose name / equation / code are `' Y '` / `''` / blank + newline, an exogenous symbol called `''` with
+    missing equation / code, a verbatim block whose code is `''` (`'```\n\n```'`). -/
+def witnessEdge : List Symbol :=
+  [⟨none, 8, none, none, some "```\nx = 1 \t\n```", some "x = 1 \t"⟩,
+   ⟨some " Y ", 3, some 0, some 0, some "", some " \n"⟩,
+   ⟨some "", 2, some (-1), some 0, none, none⟩,
+   ⟨none, 8, none, none, some "```\n\n```", some ""⟩]
+
+/-- Non-vacuity: the list is valid, its table holds the strings as they are (and NaN for the missing ones next to
+    them), and the round trip returns them as they are: `""` stays `.str ""` (not `.none`), `"x = 1 \t"` keeps its
+    trailing blank and tab. -/
+example : ValidTypes witnessEdge ∧
+    (symbolsToTable installed witnessEdge).map (fun r => (r.name, r.equation, r.code)) =
+      [(.nan, .str "```\nx = 1 \t\n```", .str "x = 1 \t"), (.str " Y ", .str "", .str " \n"),
+       (.str "", .nan, .nan), (.nan, .str "```\n\n```", .str "")] ∧
+    tableToSymbols codeDecoder (symbolsToTable installed witnessEdge) =
+      some [⟨.none, 8, .none, .none, .str "```\nx = 1 \t\n```", .str "x = 1 \t"⟩,
+            ⟨.str " Y ", 3, .int 0, .int 0, .str "", .str " \n"⟩,
+            ⟨.str "", 2, .int (-1), .int 0, .none, .none⟩,
+            ⟨.none, 8, .none, .none, .str "```\n\n```", .str ""⟩] ∧
+    RoundTrips codeDecoder installed witnessEdge := by
+  refine ⟨by decide, by decide, by decide, by decide⟩
+
+example : codeDecoder.code (.str "") = some (.str "") ∧ codeDecoder.code (.str " \t\n") = some (.str " \t\n") ∧
+    codeDecoder.name (.str "x ") ≠ some (.str "x") ∧ ofStr (some "") ≠ ofStr none := by decide
+
+/-- A decoder that strips the trailing blank of one code string, or takes `''` for a missing entry, … -/
+def rstripOne (c : Cell) : Option Cell :=
+  if c = .str "x = 1 " then some (.str "x = 1") else if c = .str "" then some .none else convertToStrOrNone c
+
+/-- … fails on the parser output of a fenced block with a trailing blank, and on a block whose code is `''`. -/
+example : ¬ RoundTrips { codeDecoder with code := rstripOne } installed
+      [⟨none, 8, none, none, some "```\nx = 1 \n```", some "x = 1 "⟩] ∧
+    ¬ RoundTrips { codeDecoder with code := rstripOne } installed
+      [⟨none, 8, none, none, some "```\n\n```", some ""⟩] := by
+  refine ⟨by decide, by decide⟩
+
 end Fsic.C19
